@@ -347,9 +347,10 @@ package godi
 //@        ncalls("atomic.Load:disposed") == 1 && (callret("atomic.Load:disposed", 0, 0, "int32") != 0 ==> result1 == ErrProviderDisposed)
 //@   ensures[C01,C15] singleton_missing_is_error: d != nil && d.Lifetime == Singleton && !callret("provider.singletons.Load", 0, 1) ==> result0 == nil && result1 != nil
 //@        && (callret("atomic.Load:disposed", 0, 0, "int32") == 0 ==> typeis(result1, "*ResolutionError") && as(result1, "*ResolutionError").Cause == ErrSingletonNotInitialized)
-//@   ensures[C02] scoped_at_most_one_create: d != nil && d.Lifetime == Scoped ==> ncalls("scope.createInstance") <= 1 && ncalls("scope.instancesMu.RLock") == 1 && callarg("scope.instancesMu.RLock", 0, 0) == s
-//@   ensures[C02] scoped_created_for_descriptor: d != nil && d.Lifetime == Scoped && ncalls("scope.createInstance") == 1 ==> callarg("scope.createInstance", 0, 0) == s && callarg("scope.createInstance", 0, 1) == d
-//@        && result0 == callret("scope.createInstance", 0, 0) || result0 == nil
+//@   ensures[C02] scoped_at_most_one_create: d != nil && d.Lifetime == Scoped ==> ncalls("scope.createInstance") == 0 && ncalls("scope.createScoped") <= 1 && ncalls("scope.instancesMu.RLock") == 1 && callarg("scope.instancesMu.RLock", 0, 0) == s
+//@   ensures[C02] scoped_created_for_descriptor: d != nil && d.Lifetime == Scoped && ncalls("scope.createScoped") == 1 ==> callarg("scope.createScoped", 0, 0) == s && callarg("scope.createScoped", 0, 1, "instanceKey") == key
+//@        && callarg("scope.createScoped", 0, 2) == d && result0 == callret("scope.createScoped", 0, 0) && result1 == callret("scope.createScoped", 0, 1)
+//@   ensures[C02,C03] only_scoped_services_share_a_construction: d != nil && d.Lifetime != Scoped ==> ncalls("scope.createScoped") == 0
 //@   ensures[C03] transient_always_creates: d != nil && d.Lifetime == Transient ==> ncalls("scope.createInstance") == 1 && callarg("scope.createInstance", 0, 0) == s && callarg("scope.createInstance", 0, 1) == d
 //@        && (result1 == callret("scope.createInstance", 0, 1) || result1 == ErrScopeDisposed) && (result0 == callret("scope.createInstance", 0, 0) || result0 == nil)
 //@        && ncalls("scope.instancesMu.RLock") == 0 && ncalls("provider.singletons.Load") == 0
@@ -360,7 +361,61 @@ package godi
 //@   ensures[C15] bad_lifetime: d != nil && d.Lifetime != Singleton && d.Lifetime != Scoped && d.Lifetime != Transient ==> result0 == nil && typeis(result1, "*LifetimeError")
 //@   ensures[C15] error_means_no_value: result1 != nil && (d == nil || d.Lifetime != Transient) ==> result0 == nil
 //@   ensures[C02,C15] resolve_itself_never_writes_a_table: ncalls("scope.instancesMu.Lock") == 0 && ncalls("scope.disposablesMu.Lock") == 0 && ncalls("provider.singletons.Store") == 0 && ncalls("provider.singletons.Delete") == 0
-//@   at after call s.getInstance#1 : assert[C02] scoped_hit_no_create: ok ==> ncalls("scope.createInstance") == 0
+//@   at after call s.getInstance#1 : assert[C02] scoped_hit_no_create: ok ==> ncalls("scope.createInstance") == 0 && ncalls("scope.createScoped") == 0
+//
+// One construction of a scoped service per scope at a time (C02 'a scope never ends up with two instances of it, however many goroutines
+// resolve concurrently; a failed construction yields no instance and may be retried'). What the contracts decide: the constructor is run only
+// by the goroutine that announced the construction in s.creating under creatingMu, at most once per call; the announcement is withdrawn and
+// every waiter released on every outcome (construct); a waiter runs no constructor while the announcement stands. That two goroutines cannot
+// both hold the announcement follows from the lock discipline of s.creating (guarded_by creatingMu); the interleaving itself is exercised by the
+// bounded stand-in lifecycle/scoped-race.
+//@ field scope.creating guarded_by creatingMu contents map[*Descriptor]*scopedCall
+//@ field scopedCall.done immutable
+//@ lockinv[C09,C02] scope.creatingMu announced_calls_can_be_waited_for: forall k *Descriptor :: (self.creating != nil && (k in self.creating)) ==> self.creating[k] != nil && self.creating[k].done != nil
+//@ func scope.createScoped
+//@   mode conc
+//@   interferes
+//@   nopanic
+//@   safety[C15,C13,C09,C02]
+//@   requires recv: s != nil && s.rootProvider != nil && s.rootProvider.analyzer != nil && descriptor != nil
+//@   ensures[C02] at_most_one_construction: ncalls("scope.construct") <= 1 && ncalls("scope.createInstance") == 0
+//@   ensures[C02,C04] constructs_the_requested_service_in_this_scope: ncalls("scope.construct") == 1 ==> callarg("scope.construct", 0, 0) == s && callarg("scope.construct", 0, 3) == descriptor
+//@        && callarg("scope.construct", 0, 1) == ite(len(descriptor.outputs) > 0, descriptor.outputs[0], descriptor)
+//@   ensures[C15,C02] failed_construction_is_reported_and_yields_no_instance: ncalls("scope.construct") == 1 && callret("scope.construct", 0, 1) != nil ==> result0 == nil && result1 == callret("scope.construct", 0, 1)
+//@   ensures[C13] overlapping_close_reports_the_disposed_error: ncalls("scope.construct") == 1 && callret("scope.construct", 0, 1) == nil ==>
+//@        (callret("atomic.Load:disposed", ncalls("atomic.Load:disposed") - 1, 0, "int32") != 0 ==> result0 == nil && result1 == ErrScopeDisposed)
+//@        && (callret("atomic.Load:disposed", ncalls("atomic.Load:disposed") - 1, 0, "int32") == 0 ==> result0 == callret("scope.construct", 0, 0) && result1 == nil)
+//@   ensures[C15] error_means_no_value: result1 != nil ==> result0 == nil
+// every announcement made by this call is withdrawn again by this call: by construct, or by release when the cache had the instance meanwhile
+//@   ensures[C02,C15] every_announcement_is_withdrawn: ncalls("scope.release") + ncalls("scope.construct") <= 1
+//@   at before call s.creatingMu.Unlock#1 : assert[C02] construction_is_announced_under_the_lock_before_it_runs: s.creating != nil && (id in s.creating) && s.creating[id] == call && !busy && ncalls("scope.construct") == 0 && ncalls("scope.release") == 0
+//@   at before call s.release#1 : assert[C02] cached_meanwhile_constructs_nothing: ok && ncalls("scope.construct") == 0 && ncalls("scope.release") == 0
+//@   at before call s.construct#1 : assert[C02] construct_follows_its_announcement: !busy && ncalls("scope.release") == 0
+//@   at before call s.creatingMu.Unlock#2 : assert[C02] a_waiter_constructs_nothing: busy && call != nil && ncalls("scope.construct") == 0 && ncalls("scope.release") == 0
+//@   loop 1
+//@     invariant nothing_constructed_yet: ncalls("scope.construct") == 0 && ncalls("scope.createInstance") == 0 && ncalls("scope.release") == 0
+//
+//@ func scope.construct
+//@   mode conc
+//@   interferes
+//@   nopanic
+//@   safety[C15,C09,C02]
+//@   requires recv: s != nil && s.rootProvider != nil && s.rootProvider.analyzer != nil && descriptor != nil && call != nil && call.done != nil
+//@   ensures[C02,C03] constructs_exactly_once: ncalls("scope.createInstance") == 1 && callarg("scope.createInstance", 0, 0) == s && callarg("scope.createInstance", 0, 1) == descriptor
+//@        && instance == callret("scope.createInstance", 0, 0) && err == callret("scope.createInstance", 0, 1)
+//@   ensures[C02,C15] waiters_are_released_whatever_the_outcome: ncalls("scope.release") == 1 && callarg("scope.release", 0, 0) == s && callarg("scope.release", 0, 1) == id && callarg("scope.release", 0, 2) == call
+//@        && callarg("scope.release", 0, 3) == err && calltime("scope.createInstance", 0) < calltime("scope.release", 0)
+//
+//@ func scope.release
+//@   mode conc
+//@   interferes
+//@   nopanic
+//@   safety[C15,C09,C02]
+//@   requires recv: s != nil && call != nil && call.done != nil
+//@   ensures[C02,C15] announcement_withdrawn_then_waiters_woken: ncalls("chan.close") == 1 && callarg("chan.close", 0, 0) == call.done
+//@        && ncalls("scope.creatingMu.Lock") == 1 && ncalls("scope.creatingMu.Unlock") == 1 && calltime("scope.creatingMu.Unlock", 0) < calltime("chan.close", 0)
+//@   ensures[C15,C02] outcome_is_recorded_for_the_waiters: call.err == err
+//@   at before call s.creatingMu.Unlock#1 : assert[C02] withdrawn: s.creating == nil || !(id in s.creating)
 //
 //@ func extractParameterTypes
 //@   pure
